@@ -625,6 +625,20 @@ Definition process_change_v (fixed : bool) (x : ectx) (pol : policy_fn) (emax : 
 (* the code of the working tree *)
 Definition process_change := process_change_v true.
 
+(* the session loop: every NlriChange delivered to a neighbour's task goes through
+   handle_prefix_update -> process_nlri_change with the same ExportMap and sink
+   (also the initial dump of on_established and do_route_refresh, which feed
+   it the changes of collect_loc_rib_paths_limited) *)
+Fixpoint run_changes (x : ectx) (pol : policy_fn) (emax : N) (raddr : ipaddr) (cid : option N)
+         (cs : list change) (e : emap) : res (list sinkop * emap) :=
+  match cs with
+  | [] => Ok ([], e)
+  | c :: t =>
+    rbind (process_change x pol emax raddr cid c e) (fun r1 =>
+      rbind (run_changes x pol emax raddr cid t (snd r1)) (fun r2 =>
+        Ok (fst r1 ++ fst r2, snd r2)))
+  end.
+
 (* ------------------------------------------------------------ the LLGR period begins
    One destination holding one unfiltered path learned from peer [ps]:
    Table::insert reports (best_changed, any_changed) = (true, true);
